@@ -416,15 +416,41 @@ func (c *Ctx) decisionTree(fn *ssa.Function) ([]treePath, error) {
 		return nil, fmt.Errorf("no body")
 	}
 	var out []treePath
+	var path []*ssa.BasicBlock // blocks of the path being walked (a result merged by φ-nodes is read off the path)
+	onPath := func(v ssa.Value) ssa.Value {
+		for i := 0; i < 8; i++ {
+			ph, ok := v.(*ssa.Phi)
+			if !ok {
+				return v
+			}
+			var next ssa.Value
+			for pi, b := range path {
+				if b != ph.Block() || pi == 0 {
+					continue
+				}
+				for ei, p := range ph.Block().Preds {
+					if p == path[pi-1] {
+						next = ph.Edges[ei]
+					}
+				}
+			}
+			if next == nil {
+				return v
+			}
+			v = next
+		}
+		return v
+	}
 	var walk func(b *ssa.BasicBlock, conds []treeCond, depth int) error
 	walk = func(b *ssa.BasicBlock, conds []treeCond, depth int) error {
 		if depth > 64 {
 			return fmt.Errorf("path too long (loop?)")
 		}
+		path = append(path[:depth:depth], b)
 		last := b.Instrs[len(b.Instrs)-1]
 		for _, ins := range b.Instrs[:len(b.Instrs)-1] {
 			switch ins.(type) {
-			case *ssa.BinOp, *ssa.DebugRef, *ssa.Convert, *ssa.ChangeType:
+			case *ssa.BinOp, *ssa.DebugRef, *ssa.Convert, *ssa.ChangeType, *ssa.Phi:
 			default:
 				return fmt.Errorf("unexpected instruction %s at %s", ins, c.InstrPos(ins))
 			}
@@ -434,7 +460,7 @@ func (c *Ctx) decisionTree(fn *ssa.Function) ([]treePath, error) {
 			if len(x.Results) != 1 {
 				return fmt.Errorf("unexpected result count")
 			}
-			k, ok := x.Results[0].(*ssa.Const)
+			k, ok := onPath(x.Results[0]).(*ssa.Const)
 			if !ok {
 				return fmt.Errorf("non-constant result at %s", c.InstrPos(x))
 			}
